@@ -241,6 +241,7 @@ func init() {
 			{Scenario: "mux.close", Params: vx.P("data", "600", "rbuf", "100"), Bound: b(1, 2), Weight: 9},
 			{Scenario: "mux.close", Params: vx.P("data", "300", "conns", "3", "delay", "1"), Bound: b(2, 3), Weight: 8},
 			{Scenario: "mux.close", Params: vx.P("data", "300", "conns", "1"), Bound: b(2, 3), Weight: 4},
+			{Scenario: "mux.close", Params: vx.P("data", "5", "conns", "1", "crosscheck", "1"), Bound: 1, Weight: 4},
 			{Scenario: "mux.close", Params: vx.P("data", "5", "sdata", "5", "mode", "simul", "delay", "1"), Bound: b(2, 3), Weight: 9},
 			{Scenario: "mux.close", Params: vx.P("data", "5", "sdata", "5", "mode", "simul", "conns", "1"), Bound: b(1, 2), Weight: 9},
 			{Scenario: "mux.close", Params: vx.P("data", "300", "sdata", "0", "mode", "simul", "delay", "1"), Bound: b(2, 3), Weight: 8},
